@@ -287,6 +287,38 @@ class Guards:
         return None
 
 
+def guard_present(f, node, guard):
+    """`guard` (text, blanks ignored) is the condition of an enclosing if / match-arm guard / while, the
+    pattern of an enclosing match arm (`arm:<pattern text>`), or part of the condition of an
+    earlier diverging `if` (`before:<text>`)"""
+    g = guard.replace(" ", "")
+    body = f["body"]
+    if g.startswith("before:"):
+        g = g[len("before:"):]
+        for i in walk(body):
+            if i.get("k") == "If" and i.get("l", 0) <= node.get("l", 0) and not contains(i, node) and diverges(i["then"]) and g in sexp(strip(i["cond"])).replace(" ", ""):
+                return True
+        return False
+    if g.startswith("arm:"):
+        g = g[len("arm:"):]
+        for m in walk(body):
+            if m.get("k") == "Match":
+                for arm in m["arms"]:
+                    if contains(arm["body"], node) and g in sexp(arm["pat"]).replace(" ", ""):
+                        return True
+        return False
+    for i in walk(body):
+        if i.get("k") == "If" and contains(i["then"], node) and g in sexp(strip(i["cond"])).replace(" ", ""):
+            return True
+        if i.get("k") == "While" and contains(i["body"], node) and g in sexp(strip(i["cond"])).replace(" ", ""):
+            return True
+        if i.get("k") == "Match":
+            for arm in i["arms"]:
+                if arm.get("guard") is not None and contains(arm["body"], node) and g in sexp(strip(arm["guard"])).replace(" ", ""):
+                    return True
+    return False
+
+
 def load_table():
     if not os.path.exists(TABLE):
         return {}
@@ -359,8 +391,15 @@ def check(F, R, tier, dump=None):
             ents = table.get(key, [])
             quota = sum(e.get("count", 1) for e in ents)
             if counts[key] <= quota:
-                n_table += 1
                 used[key] = True
+                # a reviewed entry may name the guard it relies on: it must still be there
+                missing = [g for g in ents[0].get("requires", []) if not guard_present(f, node, g)]
+                if missing:
+                    todo.append({"fn": p, "kind": kind, "text": text_n, "line": node.get("l"), "file": f.get("file")})
+                    R.ob("C-PANIC", "%s|%s|%s" % (p, kind, text_n), False, F.loc(f, node),
+                         "the reviewed entry for `%s` relies on the guard `%s`, which is no longer found around the site: the construct can panic" % (text_n, missing[0]))
+                    continue
+                n_table += 1
                 R.ob("C-TABLE", "%s|%s|%s#%d" % (p, kind, text_n, counts[key]), True, F.loc(f, node), "reviewed: " + ents[0]["reason"])
             else:
                 todo.append({"fn": p, "kind": kind, "text": text_n, "line": node.get("l"), "file": f.get("file")})
